@@ -256,15 +256,25 @@ class FnView:
     def defs(self):
         if self._defs is None:
             d = defaultdict(list)
+            pd = defaultdict(list)
             for bi, b in enumerate(self.blocks):
                 for si, s in enumerate(b["s"]):
                     if "p" in s and "rv" in s:
                         d[s["p"]["l"]].append((bi, si, s))
+                        if s["p"].get("p"):
+                            pd[(s["p"]["l"], _projkey(s["p"]["p"]))].append((bi, si, s))
                 t = b["t"]
                 if t["t"] == "call" and "dest" in t:
                     d[t["dest"]["l"]].append((bi, "t", t))
+                    if t["dest"].get("p"):
+                        pd[(t["dest"]["l"], _projkey(t["dest"]["p"]))].append((bi, "t", t))
             self._defs = d
+            self._pdefs = pd
         return self._defs
+
+    def pdefs(self):
+        self.defs()
+        return self._pdefs
 
     # ------------------------------------------------------------------ iteration helpers
     def calls(self, rx=None):
@@ -353,6 +363,14 @@ class Renderer:
             if best:
                 base = ("ref", ("var", best[1])) if best[2] else ("var", best[1])
                 start = len(best[0])
+        if base is None and proj and depth > 0 and fv.is_coroutine:
+            # a value saved in the coroutine state (unnamed temporary kept across an await): inline its single definition
+            pds = fv.pdefs().get((l, _projkey(proj)))
+            if pds and len(pds) == 1:
+                bi, si, s = pds[0]
+                if si == "t":
+                    return self.call_expr(s, depth - 1, bi)
+                return self.rvalue(s["rv"], depth - 1)
         if base is None:
             base = self.local(l, depth, at)
         e = base
